@@ -168,6 +168,15 @@ def run_case(c, rng):
             t_ = o_['hydraulic_timestep'] * side.randint(1, max(1, o_['duration'] // o_['hydraulic_timestep'])) + side.choice([0, 0, o_['hydraulic_timestep'] // 2])
             wn.add_control('prop_change_%d' % k, ctl.Control(ctl.SimTimeCondition(wn, '=', t_), ctl.ControlAction(wn.get_link(p_['name']), attr, new_v)))
             changes[p_['name']] = {'attr': attr, 'old': old_v, 'new': new_v, 'time': t_}
+        # the power of a constant-power pump changed by a control (updater registered for (pump, 'power'))
+        pp = [p_ for p_ in spec['pumps'] if p_['type'] == 'POWER']
+        if pp and side.random() < 0.7:
+            p_ = side.choice(pp)
+            new_v = gnet._round(p_['power'] * side.choice([0.5, 0.8, 1.5]), 5)
+            t_ = o_['hydraulic_timestep'] * side.randint(1, max(1, o_['duration'] // o_['hydraulic_timestep'])) + side.choice([0, 0, o_['hydraulic_timestep'] // 2])
+            wn.add_control('prop_change_power', ctl.Control(ctl.SimTimeCondition(wn, '=', t_), ctl.ControlAction(wn.get_link(p_['name']), 'power', new_v)))
+            changes[p_['name']] = {'attr': 'power', 'old': p_['power'], 'new': new_v, 'time': t_}
+            c.count('pump_power_control_cases')
         if changes:
             c.count('pipe_property_control_cases')
             sample = dict(sample, pipe_property_changes=changes)
